@@ -331,6 +331,20 @@ theorem poll_outside_proviso_skips :
 
 /-! ## observation point (b): the batches of `batchers.TailFilesToChan` -/
 
+/-- The batching loop and `TailFilesToChan` regenerated from /repo have the shape `Rare.C15.Batch` /
+    `Rare.C15.Tail` model: `batch` is only ever assigned `make(…)` or `append(batch, …)` (so every send
+    is followed by a fresh backing array – `batch = batch[:0]` anywhere breaks this theorem), the slice
+    header is what is sent, the flush condition is "full or timer expired" evaluated after an append,
+    the remainder is flushed after the loop, and a followed file is `followreader.New` [+ `Drain`] read
+    by that loop. -/
+theorem batching_loop_matches_source :
+    Gen.C15.batchAssigns = Expected.batchAssigns ∧
+    Gen.C15.batchSends = Expected.batchSends ∧
+    Gen.C15.batchLoopConds = Expected.batchLoopConds ∧
+    Gen.C15.tailFilesConds = Expected.tailFilesConds ∧
+    Gen.C15.tailFilesCalls = Expected.tailFilesCalls := by
+  refine ⟨rfl, rfl, rfl, rfl, rfl⟩
+
 /-- The loop with the batch slice as a heap object (`Model/C15Batch`) sends exactly the batches of the
     value-level loop of `Model/Batcher` (for which C01 proves `batches_concat`), when every sent header
     is read through the heap at the end. -/
